@@ -6,8 +6,8 @@ EXTENDS XlRefs, Json
 CONSTANTS Kind, Thorough
 NRows == <<5, 5, 5>>          \* used rows of each sheet in the whole-column workbook
 VARIABLE st
-\* Data, My Sheet, It's 2 (an apostrophe inside the title)
-Titles == <<[t |-> <<68, 97, 116, 97>>, q |-> FALSE], [t |-> <<77, 121, 32, 83, 104, 101, 101, 116>>, q |-> TRUE], [t |-> <<73, 116, 39, 115, 32, 50>>, q |-> TRUE]>>
+\* Data, My  Sheet (two blanks), It's 2 (an apostrophe inside the title)
+Titles == <<[t |-> <<68, 97, 116, 97>>, q |-> FALSE], [t |-> <<77, 121, 32, 32, 83, 104, 101, 101, 116>>, q |-> TRUE], [t |-> <<73, 116, 39, 115, 32, 50>>, q |-> TRUE]>>
 TitleTexts == [i \in 1..3 |-> Titles[i].t]
 ColsGrid == IF Thorough THEN {1, 2, 25, 26, 27, 28, 51, 52, 53, 78, 676, 677, 701, 702, 703, 704, 728, 1379, 16383, 16384} ELSE {1, 26, 27, 52, 53, 702, 703, 16384}
 RowsGrid == IF Thorough THEN {1, 2, 9, 10, 11, 99, 100, 999, 1000, 12345, 99999} ELSE {1, 9, 10, 100, 12345}
